@@ -45,10 +45,20 @@ fn apply_fixes(src: &str, fixes: &[Autofix]) -> String {
     fixes.sort_by_key(|b| std::cmp::Reverse(b.position.start_offset));
 
     let mut result = src.to_owned();
+    // Everything before `applied_start` is still the original text,
+    // so offsets below it are still valid.
+    let mut applied_start = src.len();
     for fix in fixes {
         let start = fix.position.start_offset;
         let end = fix.position.end_offset;
+        if start > end || end > applied_start {
+            // This fix overlaps one that has already been applied
+            // (or is out of range), so its offsets are stale. Skip
+            // it: it will be offered again on the next run.
+            continue;
+        }
         result = format!("{}{}{}", &result[..start], fix.new_text, &result[end..]);
+        applied_start = start;
     }
     result
 }
